@@ -236,6 +236,22 @@ static inline std::vector<uint8_t> fuzzMusicFile(Rng &r, int &detector)
 }
 
 // a well-formed file of a random kind (victim for storage/libc faults)
+// a well-formed Creative Music File: parses completely; libOPNMIDI then refuses it (it has no OPL synth), which makes it the
+// one kind of "rejected music file" that is rejected after a successful parse
+static inline std::vector<uint8_t> wellFormedCmf(Rng &r)
+{
+    std::vector<uint8_t> f; const char *c = "CTMF"; f.insert(f.end(), c, c + 4); putLE16(f, 0x0101);
+    unsigned nIns = (unsigned)r.range(1, 4), insStart = 40, musStart = insStart + 16 * nIns;
+    putLE16(f, insStart); putLE16(f, musStart); putLE16(f, (unsigned)r.pick<int>({ 96, 192, 384 })); putLE16(f, (unsigned)r.pick<int>({ 48, 96, 120 }));
+    putLE16(f, 0); putLE16(f, 0); putLE16(f, 0); for(int i = 0; i < 16; ++i) f.push_back((uint8_t)(i < 4));
+    putLE16(f, nIns); putLE16(f, 120);
+    for(unsigned i = 0; i < nIns * 16; ++i) f.push_back((uint8_t)r.below(256));
+    int notes = (int)r.range(1, 12);
+    for(int i = 0; i < notes; ++i) { uint8_t ch = (uint8_t)r.below(4), key = (uint8_t)r.range(36, 84); f.push_back((uint8_t)r.below(60)); f.push_back((uint8_t)(0x90 | ch)); f.push_back(key); f.push_back(100); f.push_back((uint8_t)r.range(1, 90)); f.push_back((uint8_t)(0x80 | ch)); f.push_back(key); f.push_back(0); }
+    f.push_back(0); f.push_back(0xFF); f.push_back(0x2F); f.push_back(0);
+    return f;
+}
+
 static inline std::vector<uint8_t> validMusicFile(Rng &r, int &kind)
 {
     kind = (int)r.weighted({ 40, 10, 10, 20, 20 });
